@@ -199,6 +199,20 @@ def check_deposit_helpers(ctx, model):
             k = const_of(w, t["args"][4], w.at_term(b))
             ctx.ob("C03-Y5", "%s|newton-step-arguments" % CD, bool(a0) and all(o.kind == "param" and o.a == 1 for o in a0) and k == 2,
                    "compute_next_d called with amp from %s and n_coins = %s (must be the amp parameter and 2)" % (sorted(map(repr, a0)), k), w.where(b))
+    # Y8: the solvers of one curve use the same amplification; Y9: their convergence tests compare new with previous
+    from .stablemath import check_no_self_comparison, check_amp_used_unmodified
+    for q, amp in (("terraswap_pair::helpers::calculate_stableswap_d", 3), ("terraswap_pair::helpers::calculate_stableswap_y", 4)):
+        sv = ctx.view(q, "C03-Y8")
+        if sv is not None:
+            check_amp_used_unmodified(ctx, "C03-Y8", sv, amp, q, forward_rx=r"helpers::calculate_stableswap_d$")
+            check_no_self_comparison(ctx, "C03-Y9", sv, q)
+    if w is not None:
+        check_no_self_comparison(ctx, "C03-Y9", w, CD)
+        check_amp_used_unmodified(ctx, "C03-Y8", w, 1, CD, forward_rx=r"helpers::compute_next_d$")
+    # Y7: pending (not all-time) protocol fees are excluded wherever the pair reads its balances (shared with C01-V1)
+    from .poolvalue import check_v1_pools, check_fee_lookup_same_asset
+    check_v1_pools(ctx, model, "terraswap_pair", "C03-Y7")
+    check_fee_lookup_same_asset(ctx, model, "terraswap_pair", "C03-Y7")
     # no rounding in the user's favour on the deposit / withdrawal / swap paths of the pair (shared with C01-V5)
     from .poolvalue import check_v5_rounding
     check_v5_rounding(ctx, model, ["terraswap_pair::commands::provide_liquidity", "terraswap_pair::commands::withdraw_liquidity",
